@@ -47,7 +47,13 @@ def regen_tables():
     p = subprocess.run([PY, os.path.join(VERIF, "tools", "gen_tables.py")],
                        stdout=subprocess.PIPE, stderr=subprocess.STDOUT, text=True,
                        env=env_for_children(), timeout=300)
-    return p.returncode == 0, p.stdout.strip()
+    if p.returncode != 0:
+        return False, p.stdout.strip()
+    # T0: the source translator (functions regenerated as Gallina from the Python source text)
+    q = subprocess.run([PY, os.path.join(VERIF, "tools", "gen_src.py")],
+                       stdout=subprocess.PIPE, stderr=subprocess.STDOUT, text=True,
+                       env=env_for_children(), timeout=300)
+    return q.returncode == 0, (p.stdout.strip() + "\n" + q.stdout.strip())
 
 
 class BuildLock:
